@@ -80,16 +80,17 @@ type bDID struct {
 }
 
 type bTxn struct {
-	Idx       int
-	Honest    bool
-	Included  []*bOp
-	Byz       string
-	Faulted   bool
-	Delivered bool
-	Observed  bool
-	CoreURI   string
-	Puts      int
-	ReplayOf  int
+	Idx        int
+	Honest     bool
+	Included   []*bOp
+	Byz        string
+	Faulted    bool
+	Delivered  bool
+	Deliveries int
+	Observed   bool
+	CoreURI    string
+	Puts       int
+	ReplayOf   int
 }
 
 type bWorld struct {
@@ -123,6 +124,8 @@ type bWorld struct {
 	txns     []*bTxn
 	byCore   map[string][]*bTxn
 	obsQueue []*bTxn
+	inFlight []*bTxn // transactions of the notification the observer is working on
+	crashes  int
 	curObs   *bTxn
 	curCut   []*operation.QueuedOperation
 	curInfo  *protocol.AnchoringInfo
@@ -198,6 +201,7 @@ func runWorldB(rc *RunCtx, prop string) *RunResult {
 		pick("queue.adderr", 0, 150)
 		pick("unpub.err", 0, 150)
 		pick("byz.txn", 0, 150, 300)
+		pick("obs.crash", 0, 0, 1)
 		pick("deliver.reorder", 0, 150)
 		pick("req.dup", 0, 100)
 	}
@@ -1198,8 +1202,8 @@ func (w *bWorld) onPut(ops []*operation.AnchoredOperation) {
 		}
 	}
 
-	if bt.Puts > 1 {
-		w.fail("C15", "store/several-writes", fmt.Sprintf("txn%d was stored with %d separate writes", bt.Idx, bt.Puts))
+	if bt.Puts > bt.Deliveries {
+		w.fail("C15", "store/several-writes", fmt.Sprintf("txn%d was delivered %d time(s) but stored with %d separate writes", bt.Idx, bt.Deliveries, bt.Puts))
 	}
 
 	// bookkeeping for the end-to-end model
@@ -1236,6 +1240,10 @@ func (w *bWorld) env() []simkit.Action {
 			k.Tr.Logf("  clock +%v", d)
 			time.Sleep(d)
 		}})
+	}
+
+	if w.rates["obs.crash"] > 0 && !w.faultsOff && w.crashes < 2 && len(w.inFlight) > 0 && k.IsParked("O") {
+		a = append(a, simkit.Action{Label: "observer crash", Do: w.crashObserver})
 	}
 
 	if w.rates["byz.txn"] > 0 && !w.faultsOff && w.byzTxns < 6 && len(w.ledger.Txns) > 0 {
@@ -1296,7 +1304,9 @@ func (w *bWorld) deliver() {
 
 	for _, i := range pick {
 		w.txns[i].Delivered = true
+		w.txns[i].Deliveries++
 		w.obsQueue = append(w.obsQueue, w.txns[i])
+		w.inFlight = append(w.inFlight, w.txns[i])
 		batch = append(batch, w.ledger.Txns[i])
 	}
 
@@ -1312,6 +1322,57 @@ func minInt(a, b int) int {
 	}
 
 	return b
+}
+
+// crashObserver: the observer node dies in the middle of a notification (its goroutine never runs again),
+// loses everything that is not durable, and a new observer instance starts; the ledger redelivers the
+// notification that was not completed (at-least-once delivery). Durable: CAS, ledger, stores.
+func (w *bWorld) crashObserver() {
+	k := w.k
+	w.crashes++
+	n := k.Kill("O")
+	k.Count("fault:observer-crash")
+	w.nontrivial = true
+	k.Tr.Logf("  observer crashed mid-notification (%d parked call(s) abandoned); redelivering txns %v", n, txnIdxs(w.inFlight))
+
+	for _, t := range w.inFlight {
+		t.Delivered = false
+	}
+
+	// whatever the dead instance had not started is forgotten with it
+	var rest []*bTxn
+
+	for _, t := range w.obsQueue {
+		pending := false
+
+		for _, f := range w.inFlight {
+			pending = pending || f == t
+		}
+
+		if !pending {
+			rest = append(rest, t)
+		}
+	}
+
+	w.obsQueue = rest
+	w.inFlight = nil
+	w.curObs = nil
+
+	w.obs.Stop()
+	w.sub = w.ledger.Subscribe()
+	w.obs = observer.New(&observer.Providers{Ledger: simenv.SubLedger{S: w.sub}, ProtocolClientProvider: w.proto})
+	k.SetCur("O")
+	w.obs.Start()
+	k.Settle()
+}
+
+func txnIdxs(ts []*bTxn) []int {
+	var out []int
+	for _, t := range ts {
+		out = append(out, t.Idx)
+	}
+
+	return out
 }
 
 // byzantineTxn: somebody else writes to the ledger.
@@ -1382,6 +1443,11 @@ func (w *bWorld) check() {
 		if len(ch) == 0 {
 			w.pendingTick = ""
 		}
+	}
+
+	// the observer is back in its select: the notification it was working on is complete
+	if len(w.inFlight) > 0 && len(w.sub.Ch) == 0 && !w.k.IsParked("O") {
+		w.inFlight = nil
 	}
 
 	// C05 (intake half): every window handed to the server-time validator is an effective window of a submitted operation
